@@ -31,6 +31,9 @@ def run(prop: str, tier: str, seed: int) -> int:
         if r.violated:
             # the documented semantics itself is inconsistent: machinery / spec problem, never a library violation
             raise tlc.MachineryError(f"model theorem violated on the reference spec: {r.violated}")
+        if d == 1:
+            core.assert_families(r.printed, {"H", "PH", "FH", "Drawing", "Circle", "GH", "Box", "FHold", "Item", "ItemL", "SNH", "Node", "Pair", "NH", "M3", "G3", "SP"},
+                                 "MC_Core depth 1", rep)
         agg = core.replay(r.printed)
         rep.count(agg["n"])
         rep.cov["traces_validated_against_impl"] += agg["n"]
